@@ -948,6 +948,31 @@ def call_external(ex, f, args, kwargs, node):
             return loops.enumerate_seq(ex, args[0])
         return list(enumerate(ex.iterate_concrete(args[0], node), *args[1:]))
     if f is zip:
+        if args and any(isinstance(a, SymSeq) for a in args):
+            # zip over sequences of unknown length: min(len) tuples of unrelated generic elements (the same sequence twice: the same element twice)
+            if not all(isinstance(a, SymSeq) and a.elem_factory is not None and not a.suffix and not getattr(a, 'prefix', None) for a in args) or kwargs:
+                raise Unsupported('zip of symbolic and concrete sequences')
+            seqs = list(args)
+            zs = SymSeq(ex.fresh_name('zip(' + ','.join(a.label for a in seqs) + ')'), None, prov='fresh')
+
+            def ef(e, l, seqs=seqs):
+                made = {}
+                out = []
+                for i_, q in enumerate(seqs):
+                    if id(q) not in made:
+                        made[id(q)] = q.elem_factory(e, q.label + '[*]')
+                    out.append(made[id(q)])
+                return tuple(out)
+            zs.elem_factory = ef
+            ln = seqs[0].len
+            for q in seqs[1:]:
+                ln = z3.If(ln <= q.len, ln, q.len)
+            zs.len = ln
+            if all(q.nonempty for q in seqs):
+                zs.nonempty = True
+            elif any(q.nonempty is False for q in seqs):
+                zs.nonempty = False
+            return zs
         return list(zip(*[ex.iterate_concrete(a, node) for a in args]))
     if f is map:
         fn = args[0]
